@@ -1179,11 +1179,26 @@ def check_transport(a):
     return None if out == ok("body") else f"status {s}: {out}"
 
 
-def adapt_map(op, a):
+def check_config(a):
+    """explicit keyword arguments win (also None); everything else comes from the service class"""
+    out = impl_client_config(a)
+    if "err" in out:
+        # Config(**params) cannot fail: every field is always passed
+        return f"Config.from_service raised {out['err']}"
+    obj = {k: v for k, v in a["obj"]}
+    kw = {k: v for k, v in a["kwargs"]}
+    for name, val in out["ok"]:
+        want = kw[name] if name in kw else obj.get(name)
+        if val != want:
+            return f"Config.{name} = {val!r}, expected {want!r} (service class {obj}, kwargs {kw})"
+    names = [n for n, _ in out["ok"]]
+    if names != ["style", "location", "transport", "soap_action", "input", "output", "encoding"]:
+        return f"Config fields {names}"
     return None
 
 
 ORACLES = [
+    Oracle("config_override", gen_client_config, check_config, from_ops=("client.config",)),
     Oracle("client_headers", gen_client_headers, check_headers, from_ops=("client.headers",)),
     Oracle("client_send", gen_client_send, check_send, from_ops=("client.send",)),
     Oracle("transport_status", gen_transport, check_transport, from_ops=("transport.handle",)),
